@@ -65,8 +65,9 @@ func NewItem(prodIdx int, prod *ast.SyntaxProd, pos int, followingSymbol string)
 		item.ExpectedSymbol = ""
 	}
 	item.str = item.getString()
-	// Alternatives with the same body have the same string but are different items.
-	item.key = fmt.Sprintf("%d %s", prodIdx, item.str)
+	// The string does not identify the item: alternatives with the same body have the
+	// same string, and so have a • "•" and a "•" • for a terminal spelled "•".
+	item.key = fmt.Sprintf("%d %d %s", prodIdx, pos, followingSymbol)
 	return item
 }
 
